@@ -24,7 +24,8 @@ ASSUMPTIONS = [
 ]
 
 VAL = st.one_of(st.none(), st.integers(0, 3), st.sampled_from(["", "ab", "a b"]), st.lists(st.integers(0, 2), max_size=3),
-                st.just({"nested": [None, 0]}), st.just("<ANY>"))       # "<ANY>" stands for unittest.mock.ANY (equal to everything)
+                st.just({"nested": [None, 0]}), st.just("<ANY>"),       # "<ANY>" stands for unittest.mock.ANY (equal to everything)
+                st.just("<EXC>"))                                       # "<EXC>" stands for an exception instance used as a plain value
 CB = st.sampled_from(["pass", "wrap", "to_none", "raise", "recover", "log", "pause"])
 EXC = st.sampled_from(["ValueError", "RuntimeError", "KeyError", "CustomError", "KeyboardInterrupt", "CustomBase"])
 
@@ -32,7 +33,9 @@ EXC = st.sampled_from(["ValueError", "RuntimeError", "KeyError", "CustomError", 
 @st.composite
 def s_deferred(draw):
     return {"state": draw(st.sampled_from(["value", "failure", "unfired", "value", "failure", "paused-value", "paused-failure"])),
-            "value": draw(VAL), "exc": draw(EXC), "callbacks": draw(st.lists(CB, max_size=3))}
+            "value": draw(VAL), "exc": draw(EXC), "callbacks": draw(st.lists(CB, max_size=3)),
+            # how the Failure came about: caught live, cleaned (cleanFailure(), as after pickling), or built from an instance
+            "fail_form": draw(st.sampled_from(["live", "live", "cleaned", "instance"]))}
 
 
 def model_chain(spec, full=False):
@@ -62,16 +65,25 @@ def live_val(v):
     if v == "<ANY>":
         from unittest import mock
         return mock.ANY
+    if v == "<EXC>":
+        return ValueError("just a value")
     return v
 
 
 def same_val(got, want):
-    """Equality that is not fooled by objects that equal everything."""
-    if want == "<ANY>":
-        from unittest import mock
-        return got is mock.ANY
+    """Equality that is not fooled by objects that equal everything: the live value is rendered back into
+    the spec's vocabulary (placeholders for mock.ANY and for the exception instance) and compared as data."""
     from unittest import mock
-    return got is not mock.ANY and got == want
+
+    def norm(x):
+        if x is mock.ANY:
+            return "<ANY>"
+        if type(x) is ValueError and x.args == ("just a value",):
+            return "<EXC>"
+        if isinstance(x, list):
+            return [norm(y) for y in x]
+        return x
+    return norm(got) == want
 
 
 def make_deferred(spec, log):
@@ -99,10 +111,18 @@ def make_deferred(spec, log):
     if spec["state"] in ("value", "paused-value"):
         d.callback(live_val(spec["value"]))
     elif spec["state"] in ("failure", "paused-failure"):
-        try:
-            raise ML.EXC_CLASSES[spec["exc"]]("boom-" + spec["exc"])
-        except BaseException:
-            d.errback()
+        from twisted.python.failure import Failure
+        form = spec.get("fail_form", "live")
+        if form == "instance":
+            d.errback(Failure(ML.EXC_CLASSES[spec["exc"]]("boom-" + spec["exc"])))
+        else:
+            try:
+                raise ML.EXC_CLASSES[spec["exc"]]("boom-" + spec["exc"])
+            except BaseException:
+                f = Failure()
+            if form == "cleaned":
+                f.cleanFailure()
+            d.errback(f)
     return d
 
 
@@ -167,8 +187,8 @@ def s_case(draw):
 
 
 def _value_in_domain(v, dom):
-    if v == "<ANY>":
-        return False        # stands for mock.ANY, which is in no matcher's domain
+    if v in ("<ANY>", "<EXC>"):
+        return False        # stand for mock.ANY / an exception instance, which are in no matcher's domain
     return (dom == "int" and isinstance(v, int) and not isinstance(v, bool)) or (dom == "str" and isinstance(v, str)) or \
         (dom == "list" and isinstance(v, list) and all(isinstance(x, int) for x in v))
 
@@ -315,7 +335,9 @@ def run_case(spec):
                         vs.append(V("handled", name, "failure inspected by %s was logged as unhandled: %r (failure %s)" % (name, cap.unhandled()[n1:], state[1])))
         gc.collect(1)
     nt = bool(ds["callbacks"]) or (ds["state"] == "unfired" and spec["after"] != "none") or ML.depth_of(spec["inner"]) >= 1
-    return Case(vs, nt, ["state=" + kind, "callbacks=%d" % len(ds["callbacks"]), "raw=" + ds["state"]], {"state": list(state)})
+    return Case(vs, nt, ["state=" + kind, "callbacks=%d" % len(ds["callbacks"]), "raw=" + ds["state"],
+                         "failure-" + ds.get("fail_form", "live") if kind == "failure" else "",
+                         "value-is-an-exception" if kind == "value" and state[1] == "<EXC>" else ""], {"state": list(state)})
 
 
 # ---------------------------------------------------------------- SynchronousDeferredRunTest differential
@@ -335,7 +357,10 @@ def run_program_pair(spec):
             return defer.succeed(None) if deferred_mode else None
         if kind == "value":
             return defer.succeed(marker) if deferred_mode else marker
+        from testtools.twistedsupport._deferred import DeferredNotFired
+        from vp.programs import FalsyError
         exc = {"fail": lambda: case.failureException("MARK-" + marker), "error": lambda: RuntimeError("MARK-" + marker),
+               "notfired": lambda: DeferredNotFired("MARK-" + marker), "error_falsy": lambda: FalsyError("MARK-" + marker),
                "skip": lambda: case.skipException("MARK-" + marker),
                "xfail": lambda: testtools.testcase._ExpectedFailure((RuntimeError, RuntimeError("MARK-" + marker), None))}[kind]()
         if deferred_mode:
@@ -385,7 +410,7 @@ def run_program_pair(spec):
 
 def _enum_programs():
     import itertools
-    kinds = [["ok"], ["fail"], ["error"], ["skip"], ["value"], ["xfail"]]
+    kinds = [["ok"], ["fail"], ["error"], ["skip"], ["value"], ["xfail"], ["notfired"], ["error_falsy"]]
     for a, b, c, d in itertools.product(kinds, repeat=4):
         yield {"setUp": a, "test": b, "tearDown": c, "cleanup": d}
 
@@ -395,5 +420,5 @@ def subchecks(tier):
     return [
         Sub("deferred_states", run_case, s_case(), 4000 if q else 200000),
         Sub("sync_runner_differential", run_program_pair, enum=_enum_programs, enum_complete=True,
-            note="all 6^4 assignments of {ok, fail, error, skip, value, xfail} to setUp/test/tearDown/cleanup"),
+            note="all 8^4 assignments of {ok, fail, error, skip, value, xfail, DeferredNotFired, falsy error} to setUp/test/tearDown/cleanup"),
     ]
